@@ -27,6 +27,8 @@ from .monitors import bits_equal, check_array_disk, check_array_readme, compare_
 
 XOPS = ['x:trunc', 'x:app', 'x:set', 'x:recreate_samesize', 'x:recreate_other', 'x:md', 'x:md_clear']
 HOPS = ['h:read', 'h:set', 'h:app', 'h:iterapp', 'h:trunc', 'h:md']
+HOLD_ENABLED = True
+HOLD_STEPS = ['x:app', 'x:trunc', 'x:md', 'h:app', 'h:iterapp', 'h:app', 'h:trunc']
 SHAPES = [(0,), (1,), (3,), (6,), (10,), (0, 2), (2, 3), (3, 2), (4, 1), (2, 2, 2), (3, 1, 2)]
 # same item size, another interpretation of the same bytes
 SAMESIZE = {1: ['int8', 'uint8'], 2: ['int16', 'uint16', 'float16'], 4: ['int32', 'uint32', 'float32'],
@@ -52,6 +54,14 @@ def array_cases(rng, n, seed, read_bias=False, hops=None):
         yield {'kind': 'stale', 'numtype': rng.choice(gens.T13), 'bo': rng.choice(gens.BO),
                'shape': list(rng.choice(SHAPES)), 'steps': steps_for(rng, read_bias, hops), 'vseed': f'{seed}:st{k}',
                'chunklen': rng.choice([1, 2, 100])}
+        if k % 4 == 3 and hops is None and HOLD_ENABLED:
+            # the long-lived handle keeps its OWN context open during the whole history; only length changes are
+            # made (by other means and through it) and only files and fresh handles are judged - what the open map of
+            # the old handle shows in between is not (see DESIGN section 8)
+            c = {'kind': 'stale', 'numtype': rng.choice(gens.T13), 'bo': rng.choice(gens.BO), 'shape': list(rng.choice(SHAPES)),
+                 'steps': [rng.choice(HOLD_STEPS) for _ in range(rng.randint(2, 6))], 'vseed': f'{seed}:hold{k}',
+                 'chunklen': rng.choice([1, 2, 100]), 'hold': True}
+            yield c
 
 
 def ragged_cases(rng, n, seed, hops=None):
@@ -61,6 +71,13 @@ def ragged_cases(rng, n, seed, hops=None):
                'steps': [s for s in steps_for(rng, hops=hops) if s not in ('x:set', 'h:set', 'x:md_clear', 'h:md')]
                or ['x:app', 'h:app'],
                'vseed': f'{seed}:sr{k}'}
+        if k % 4 == 3 and hops is None and HOLD_R_ENABLED:
+            yield {'kind': 'stale', 'numtype': rng.choice(gens.T13), 'bo': rng.choice(gens.BO),
+                   'atom': list(rng.choice([(), (2,)])), 'nsub': rng.choice([0, 1, 3, 6]),
+                   'steps': [rng.choice(HOLD_STEPS) for _ in range(rng.randint(2, 6))], 'vseed': f'{seed}:rhold{k}', 'hold': True}
+
+
+HOLD_R_ENABLED = True
 
 
 def sig_of(case):
@@ -83,8 +100,13 @@ def run_array(env, res, case, want_readme=False, census=False):
         h = D.asarray(path, model, accessmode='r+', chunklen=case['chunklen'])
         lastx = 'none'
         nsteps = 0
+        import contextlib
+        held = contextlib.ExitStack()
+        if case.get('hold'):
+            held.enter_context(h.open_array())
+            res.count('mon.histories_with_held_context')
         for step in case['steps']:
-            tag = f'stale:{lastx}>{step}'
+            tag = f'stale{"(held)" if case.get("hold") else ""}:{lastx}>{step}'
             n = model.shape[0]
             try:
                 if step == 'x:trunc':
@@ -203,6 +225,8 @@ def run_array(env, res, case, want_readme=False, census=False):
             if step.startswith('x:'):
                 lastx = step
             live = h if step in ('h:app', 'h:app2', 'h:iterapp', 'h:trunc') else None
+            if case.get('hold') and step == 'h:trunc' and False:
+                live = None
             if not check_array_disk(res, D, path, None, model, want=('ifd', 'fresh'), mechprefix=tag):
                 return
             if live is not None:
@@ -219,6 +243,7 @@ def run_array(env, res, case, want_readme=False, census=False):
                 check_array_readme(res, D, path, mechprefix=f'{tag}:readme')
                 if res.fails:
                     return
+        held.close()
         res.nontrivial = nsteps >= 2
     finally:
         env.scratch.drop(d)
@@ -243,8 +268,13 @@ def run_ragged(env, res, case):
             h = D.create_raggedarray(path, atom=atom, dtype=dtype, accessmode='r+')
         lastx = 'none'
         nsteps = 0
+        import contextlib
+        held = contextlib.ExitStack()
+        if case.get('hold'):
+            held.enter_context(h.open_arrays())
+            res.count('mon.histories_with_held_context')
         for step in case['steps']:
-            tag = f'stale:{lastx}>{step}'
+            tag = f'stale{"(held)" if case.get("hold") else ""}:{lastx}>{step}'
             n = len(model)
             try:
                 if step == 'x:trunc':
@@ -337,6 +367,7 @@ def run_ragged(env, res, case):
                 for f in res.fails:
                     f['mech'] = f'{tag}:' + f['mech']
                 return
+        held.close()
         res.nontrivial = nsteps >= 2
     finally:
         env.scratch.drop(d)
